@@ -124,59 +124,147 @@ def gen_cases(ctx):
                         c["reflect"] = [1, 0.4, 0.2]
                     c["translate"] = [1.0, 2.0, -3.0]
                 cases.append(c)
+    # ---- both ways of building the moved problem: "coords" (coordinates transformed directly) and
+    #      "api" (mesh.Symmetry / Rotate / Translate on a copy), with position-dependent Dirichlet
+    #      values and boundary tractions / fluxes given as callables on the moved mesh
+    for c in list(cases):
+        if c["kind"] in ("elastic", "thermal"):
+            c["build"] = rng.choice(["coords", "api"])
+    nf = 2 if quick else 5
+    for rep in range(nf):
+        for build in ("api", "coords"):
+            for kind in ("elastic", "thermal"):
+                c = {"kind": kind, "dim": 2, "elemType": rng.choice(["TRI3", "QUAD4", "TRI6", "QUAD8"]), "law": "iso", "E": 100.0, "v": 0.3,
+                     "F": F3(), "u0": [round(rng.uniform(-0.01, 0.01), 4), round(rng.uniform(-0.01, 0.01), 4), 0.0],
+                     "build": build, "loads": "field"}
+                if rep % 2 == 0:
+                    c["reflect"] = [round(rng.uniform(0.2, 1), 2), round(rng.uniform(-1, 1), 2), 0]
+                    if rng.random() < 0.5:
+                        c["angle"] = round(rng.uniform(5, 355), 1)
+                else:
+                    c.update(tr())
+                if rng.random() < 0.6:
+                    c["translate"] = [round(rng.uniform(-3, 3), 2), round(rng.uniform(-3, 3), 2), 0]
+                cases.append(c)
+    for rep in range(1 if quick else 2):
+        for kind in ("elastic", "thermal"):
+            cases.append({"kind": kind, "dim": 3, "elemType": "TETRA4", "law": "iso", "E": 100.0, "v": 0.3, "F": F3(True), "u0": [0.004, -0.003, 0.002],
+                          "build": "api", "loads": "field", "reflect": [round(rng.uniform(0.2, 1), 2), round(rng.uniform(-1, 1), 2), round(rng.uniform(-1, 1), 2)],
+                          "angle": round(rng.uniform(5, 355), 1), "axis": [1, round(rng.uniform(-1, 1), 2), 0.5], "translate": [0.5, -1.0, 2.0]})
+    # pressure loads (normal from the boundary elements): rotation/translation, and reflection (own key)
+    for dim, et in ((2, "QUAD4"), (3, "TETRA4")):
+        base = {"kind": "elastic", "dim": dim, "elemType": et, "law": "iso", "E": 100.0, "v": 0.3, "F": [0, 0, 0], "loads": "field",
+                "pressure": round(rng.uniform(0.3, 1.5), 2), "build": "api"}
+        cases.append(dict(base, angle=round(rng.uniform(5, 355), 1), axis=[0, 0, 1] if dim == 2 else [1, 0.4, -0.7], translate=[1.0, -2.0, 0.0 if dim == 2 else 0.5]))
+        cases.append(dict(base, reflect=[round(rng.uniform(0.2, 1), 2), round(rng.uniform(-1, 1), 2), 0 if dim == 2 else 0.4]))
+    # mesh motions: every element group (all dimensions) must carry the moved coordinates
+    for dim, et in ((2, rng.choice(["TRI3", "QUAD8"])), (3, rng.choice(["TETRA4", "PRISM6"]))):
+        cases.append({"kind": "motion", "dim": dim, "elemType": et, "reflect": [round(rng.uniform(0.2, 1), 2), round(rng.uniform(-1, 1), 2), 0 if dim == 2 else 0.6],
+                      "angle": round(rng.uniform(5, 355), 1), "axis": [0, 0, 1] if dim == 2 else [0.3, 1, -0.5], "translate": [1.5, -0.5, 0 if dim == 2 else 2.0]})
+    # beams vs their mirror images (arbitrary lines / planes), tip forces AND tip moments, all nodes,
+    # single members and L-frames with rigid joints
+    shapes2 = [[[0, 0, 0], [103.9, 60.0, 0]], [[0, 0, 0], [100, 0, 0], [100, 80, 0]], [[0, 0, 0], [-70, 40, 0], [-20, 110, 0]]]
+    shapes3 = [[[0, 0, 0], [80, 50, 30]], [[0, 0, 0], [100, 0, 0], [100, 80, 30]]]
+    for timo in (False, True):
+        for k, pts in enumerate(shapes2 if not quick else shapes2[:2]):
+            c = {"kind": "beam", "dim": 2, "timo": timo, "elemType": "SEG3" if timo else rng.choice(["SEG2", "SEG3"]), "points": pts,
+                 "F": [300.0, -800.0, 0.0], "M": [0, 0, round(rng.uniform(2000, 9000), 0)],
+                 "reflect": [1, 0, 0] if k == 0 and not timo else [round(rng.uniform(0.2, 1), 2), round(rng.uniform(-1, 1), 2), 0]}
+            if rng.random() < 0.5:
+                c["translate"] = [round(rng.uniform(-30, 30), 1), round(rng.uniform(-30, 30), 1), 0]
+            cases.append(c)
+        for k, pts in enumerate(shapes3 if not quick else shapes3[1:]):
+            cases.append({"kind": "beam", "dim": 3, "timo": timo, "elemType": "SEG3" if timo else "SEG2", "points": pts,
+                          "F": [300.0, -800.0, 250.0], "M": [1500.0, -2500.0, 4000.0],
+                          "reflect": [round(rng.uniform(0.2, 1), 2), round(rng.uniform(-1, 1), 2), round(rng.uniform(-1, 1), 2)],
+                          "angle": round(rng.uniform(5, 355), 1), "axis": [0.2, -0.4, 1.0]})
+        # rotated L-frame with a tip moment (proper rotation)
+        cases.append({"kind": "beam", "dim": 2, "timo": timo, "elemType": "SEG3", "points": shapes2[1], "F": [300.0, -800.0, 0.0], "M": [0, 0, 5000.0],
+                      "angle": round(rng.uniform(5, 355), 1)})
     cases += [{"kind": "Bcheck", "dim": 2, "seed": rng.randint(0, 10**6)}, {"kind": "Bcheck", "dim": 3, "seed": rng.randint(0, 10**6)}]
     return cases
 
 
+def classify(c, r, beam):
+    moved = ("rot" if c.get("angle") else "") + ("+refl" if c.get("reflect") else "") + ("+transl" if c.get("translate") else "")
+    if c["kind"] == "beam":
+        cls = "beam:%s:%dD" % ("Timoshenko" if c.get("timo") else "EB", c["dim"])
+    elif c["kind"] == "elastic":
+        cls = "elastic:%s:%dD" % (c["law"], c["dim"])
+    else:
+        cls = c["kind"]
+    if c["kind"] == "Bcheck":
+        key = "corr:B-transcription"
+    elif c["kind"] == "motion" or (isinstance(r, dict) and r.get("motion", {}).get("err", 0) > 1e-9):
+        step = (r.get("motion") or {}).get("step", "?") if isinstance(r, dict) else "?"
+        key = "mesh-motion:Mesh.%s" % step
+    elif c.get("pressure") and c.get("reflect"):
+        key = "pressure-reflected-mesh:Get_normals"
+    elif c["kind"] == "beam" and beam is not None and not beam["block_transposed"]:
+        key = "beam-local-global:_Compute_P_e_pg"
+    elif c["kind"] == "beam" and c.get("reflect") and not c.get("angle"):
+        key = "frame-indifference:%s:mirror" % cls
+    else:
+        key = "frame-indifference:" + cls
+    return cls, moved, key
+
+
 def correspondence(ctx, beam, holder):
     cases = gen_cases(ctx)
-    rc, out, err = ctx.impl_python(os.path.join(common.VERIF, "corr", "c10_impl.py"), input=json.dumps({"cases": cases}), timeout=1500)
-    holder["done"] = True
-    if rc != 0:
-        ctx.obligation("corr:impl-run", False, err[-1500:])
-        ctx.violation("corr:impl-crash", "the implementation-side run failed: " + (err.strip().splitlines()[-1][:200] if err.strip() else "rc=%d" % rc),
-                      {"stderr": err[-3000:]}, found_input=False)
-        return
-    res = json.loads(out)
+    nchunk = 4
+    chunks = [cases[i::nchunk] for i in range(nchunk)]
+    outs = [None] * nchunk
+
+    def runchunk(i):
+        outs[i] = ctx.impl_python(os.path.join(common.VERIF, "corr", "c10_impl.py"), input=json.dumps({"cases": chunks[i]}), timeout=1500)
+    ths = [threading.Thread(target=runchunk, args=(i,)) for i in range(nchunk)]
+    for t in ths:
+        t.start()
+    for t in ths:
+        t.join()
+    res = [None] * len(cases)
+    for i, (rc, out, err) in enumerate(outs):
+        if rc != 0:
+            ctx.obligation("corr:impl-run", False, err[-1500:])
+            ctx.violation("corr:impl-crash", "the implementation-side run failed: " + (err.strip().splitlines()[-1][:200] if err.strip() else "rc=%d" % rc),
+                          {"stderr": err[-3000:]}, found_input=False)
+            return
+        for k, r in enumerate(json.loads(out)):
+            res[i + k * nchunk] = r
     dist = {}
     worst = {}
     bad = []
     for c, r in zip(cases, res):
-        moved = ("rot" if "angle" in c else "") + ("+refl" if "reflect" in c else "") + ("+transl" if "translate" in c else "")
-        if c["kind"] == "beam":
-            cls = "beam:%s:%dD" % ("Timoshenko" if c.get("timo") else "EB", c["dim"])
-        elif c["kind"] == "elastic":
-            cls = "elastic:%s:%dD" % (c["law"], c["dim"])
-        else:
-            cls = c["kind"]
-        dist[cls + ":" + moved] = dist.get(cls + ":" + moved, 0) + 1
-        ctx.note_case(None if c["kind"] == "Bcheck" else "%s:%s:%s:%s" % (cls, c.get("elemType"), moved, c.get("angle")))
+        cls, moved, key = classify(c, r, beam)
+        tag = cls + ":" + moved + (":" + c["build"] if "build" in c else "") + (":field-loads" if c.get("loads") == "field" else "") + (":pressure" if c.get("pressure") else "") \
+            + (":moment" if c.get("M") else "") + (":frame" if len(c.get("points", [])) > 2 else "")
+        dist[tag] = dist.get(tag, 0) + 1
+        ctx.note_case(None if c["kind"] == "Bcheck" else "%s:%s:%s" % (tag, c.get("elemType"), c.get("angle")))
         if "raises" in r:
-            bad.append((cls, c, "the implementation raised %s" % r["raises"], r))
+            bad.append((key, cls, c, "the implementation raised %s" % r["raises"], r))
             continue
-        tol = 1e-12 if c["kind"] == "Bcheck" else TOL
+        tol = 1e-12 if c["kind"] in ("Bcheck", "motion") else TOL
         worst[cls] = max(worst.get(cls, 0.0), r["err"])
         if r["err"] > tol:
-            bad.append((cls, c, "%s: discrepancy %.3e after transforming back (%s)" % (cls, r["err"], r.get("what")), r))
+            extra = ""
+            if r.get("motion", {}).get("err", 0) > 1e-9:
+                m = r["motion"]
+                extra = "; after mesh.%s the element group %s (dim %d) is off the moved coordinates by %.3g" % (m["step"], m["group"], m["dim"], m["err"])
+            bad.append((key, cls, c, "%s: discrepancy %.3e after transforming back (%s)%s" % (cls, r["err"], r.get("what"), extra), r))
     ctx.cov["corr_distribution"] = dist
     ctx.cov["corr_worst_discrepancy"] = worst
     ctx.cov["corr_tolerance"] = TOL
-    ctx.obligation("corr:moved-problem-vs-moved-solution", not bad, "; ".join(b[2] for b in bad[:4]))
+    ctx.obligation("corr:moved-problem-vs-moved-solution", not bad, "; ".join(b[3] for b in bad[:4]))
     if res:
         ctx.sample({"case": cases[0], "result": {k: v for k, v in res[0].items() if k != "tb"}})
     seen = set()
-    for cls, c, what, r in bad:
-        if cls.startswith("beam") and not beam["block_transposed"]:
-            key = "beam-local-global:_Compute_P_e_pg"
-        elif c["kind"] == "Bcheck":
-            key = "corr:B-transcription"
-        else:
-            key = "frame-indifference:" + cls
+    for key, cls, c, what, r in bad:
         if key in seen:
             continue
         seen.add(key)
-        ctx.violation(key, what + " — case %s" % json.dumps(c), {"replay_py": REPLAY % dict(verif=common.VERIF, case=c, tol=(1e-12 if c["kind"] == "Bcheck" else TOL)),
-                                                               "case": c, "impl_result": {k: v for k, v in r.items() if k != "tb"}}, found_input=True)
+        ctx.violation(key, what + " — case %s" % json.dumps(c),
+                      {"replay_py": REPLAY % dict(verif=common.VERIF, case=c, tol=(1e-12 if c["kind"] in ("Bcheck", "motion") else TOL)),
+                       "case": c, "impl_result": {k: v for k, v in r.items() if k != "tb"}}, found_input=True)
     holder["bad"] = bad
 
 
@@ -192,26 +280,40 @@ def run(ctx):
         ctx.obligation("static-lib", False, log[-1500:])
         ctx.violation("static-lib-build", "coq/lib or coq/model does not build", {"log": log[-3000:]}, found_input=False)
         return
+    beam = pm = lw = None
+    gens = {}
     try:
         beam = T_beam.read_beam(ctx.repo)
+        gens["Gen_Beam.v"] = T_beam.emit_coq(beam)
+        ctx.obligation("translate:beam", True, "_Calc_P, _Compute_P_e_pg blocks (%s), %d application sites" % ("P^T" if beam["block_transposed"] else "P", len(beam["sites"])))
+        ctx.cov["beam_block_layout"] = "P^T" if beam["block_transposed"] else "P"
+        ctx.cov["beam_application_sites"] = beam["sites"]
+    except (TranslateError, SyntaxError, OSError) as ex:
+        beam = None
+        ctx.obligation("translate:beam", False, str(ex))
+        ctx.violation("translate", "translator rejected the beam source (the beam theorems are not re-established; the moved-problem pairs still run): %s" % ex,
+                      {"construct": str(ex)}, found_input=False)
+    try:
         pm = T_pmat.read_pmat(ctx.repo)
         lw = T_laws.read_laws(ctx.repo)
-        gens = {"Gen_Beam.v": T_beam.emit_coq(beam), "Gen_Pmat.v": T_pmat.emit_coq(pm), "Gen_Laws.v": T_laws.emit_coq(lw)}
+        gens["Gen_Pmat.v"] = T_pmat.emit_coq(pm)
+        gens["Gen_Laws.v"] = T_laws.emit_coq(lw)
+        ctx.obligation("translate:laws", True, "Get_Pmat, Apply_Pmat, laws")
     except (TranslateError, SyntaxError, OSError) as ex:
-        ctx.obligation("translate", False, str(ex))
-        ctx.violation("translate", "translator rejected the source: %s" % ex, {"construct": str(ex)}, found_input=False)
-        return
-    ctx.obligation("translate", True, "_Calc_P, _Compute_P_e_pg blocks (%s), %d application sites" % ("P^T" if beam["block_transposed"] else "P", len(beam["sites"])))
-    ctx.cov["beam_block_layout"] = "P^T" if beam["block_transposed"] else "P"
-    ctx.cov["beam_application_sites"] = beam["sites"]
+        pm = lw = None
+        ctx.obligation("translate:laws", False, str(ex))
+        ctx.violation("translate:laws", "translator rejected the constitutive source (continuum theorems not re-established; the moved-problem pairs still run): %s" % ex,
+                      {"construct": str(ex)}, found_input=False)
     for k, v in gens.items():
         open(os.path.join(ctx.build, k), "w").write(v)
-    ctx.copy_props("C11/C11_pmat.v", "C11/C11_rot.v", "C10/C10_base.v", "C10/C10_beam.v", "C10/C10_beam_corrected.v", "C10/C10_continuum.v", "C10/C10_iso.v")
-    g = ctx.coq(["Gen_Beam.v", "Gen_Pmat.v", "Gen_Laws.v", "C10_base.v"], timeout=300, count=False)
+    ctx.copy_props("C11/C11_wf.v", "C11/C11_pmat.v", "C11/C11_rot.v", "C10/C10_base.v", "C10/C10_beam.v", "C10/C10_beam_corrected.v", "C10/C10_continuum.v", "C10/C10_iso.v")
+    g = ctx.coq([f for f in ("Gen_Beam.v", "Gen_Pmat.v", "Gen_Laws.v") if f in gens] + (["C11_wf.v"] if "Gen_Pmat.v" in gens else []) + ["C10_base.v"], timeout=300, count=False)
     if not g.ok:
         ctx.obligation("generated-files-compile", False, g.log[-1500:])
         ctx.violation("generated-files", "the regenerated Coq definitions do not compile", {"log": g.log[-3000:]}, found_input=False)
-        return
+        beam_coq = laws_coq = False
+    else:
+        beam_coq, laws_coq = beam is not None, pm is not None
     res = {}
     holder = {}
 
@@ -219,27 +321,31 @@ def run(ctx):
         res[name] = ctx.coq(files, timeout=900, count=count)
     tc = threading.Thread(target=correspondence, args=(ctx, beam, holder))
     tc.start()
-    th = [threading.Thread(target=job, args=("corrected", ["C10_beam_corrected.v"])),
-          threading.Thread(target=job, args=("beam", ["C10_beam.v"])),
-          threading.Thread(target=job, args=("pmat", ["C11_pmat.v"], False))]
+    th = []
+    if beam_coq:
+        th += [threading.Thread(target=job, args=("corrected", ["C10_beam_corrected.v"])),
+               threading.Thread(target=job, args=("beam", ["C10_beam.v"]))]
+    if laws_coq:
+        th += [threading.Thread(target=job, args=("pmat", ["C11_pmat.v"], False)),
+               threading.Thread(target=job, args=("rot", ["C11_rot.v"], False)),
+               threading.Thread(target=job, args=("iso", ["C10_iso.v"]))]
     for t in th:
         t.start()
-    for t in th:
+    for t in th[:-1] if laws_coq else th:
         t.join()
-    if res["pmat"].ok:
-        th = [threading.Thread(target=job, args=("rot", ["C11_rot.v"], False)),
-              threading.Thread(target=job, args=("iso", ["C10_iso.v"]))]
-        for t in th:
-            t.start()
-        th[0].join()
-        if res["rot"].ok:
-            job("continuum", ["C10_continuum.v"])
-        th[1].join()
+    if laws_coq and res["pmat"].ok and res["rot"].ok:
+        job("continuum", ["C10_continuum.v"])
+    if laws_coq:
+        th[-1].join()
     tc.join()
+    if not beam_coq:
+        ctx.obligation("coqc:skipped:beam-theorems", False, "beam translator failed")
+    if not laws_coq:
+        ctx.obligation("coqc:skipped:continuum-theorems", False, "laws translator failed")
     ctx.sample({"theorem": "beam_K_objective : forall P Rm Kb, wf3 P -> wf3 Rm -> wf3 Kb -> blockK (Rm P) Kb = Rm (blockK P Kb) Rm^T   (blockK from the regenerated block layout)",
-                "status_on_this_tree": "proved" if res["beam"].ok else "does not check (blocks are %s)" % ctx.cov["beam_block_layout"]})
+                "status_on_this_tree": "not re-established (translator)" if "beam" not in res else "proved" if res["beam"].ok else "does not check (blocks are %s)" % ctx.cov["beam_block_layout"]})
     ctx.sample({"theorem": "Ke_objective_energy_partial : forall a b r2 C l, r2*r2=2 -> unit_orth3 a b -> wf 6 C -> qf (P C P^T) (strain (moved l)) = qf C (strain l)"})
-    if not res["beam"].ok:
+    if "beam" in res and not res["beam"].ok:
         ctx.log("beam_K_objective does not check on this tree; machine-checking the 30-degree refutation")
         open(os.path.join(ctx.build, "C10_beam_refuted.v"), "w").write(REFUTED)
         rr = ctx.coq(["C10_beam_refuted.v"], timeout=300)
@@ -251,8 +357,6 @@ def run(ctx):
                       {"replay_py": REPLAY % dict(verif=common.VERIF, case=case, tol=TOL), "case": case, "obligation": "beam_K_objective"}, found_input=True)
     for name in ("corrected", "pmat", "rot", "continuum", "iso"):
         r = res.get(name)
-        if r is None:
-            ctx.obligation("coqc:skipped:" + name, False, "prerequisite failed")
         if r is not None and not r.ok:
             ctx.violation("proof-broken:%s" % r.failed_file, "theorem file %s no longer checks against the regenerated definitions" % r.failed_file,
                           {"obligation": r.failed_file, "log": r.log[-3000:]}, found_input=False)
